@@ -654,6 +654,131 @@ func doCtrl(cl *sarama.VerifCluster, line string, t []string) string {
 }
 
 // ---------------------------------------------------------------------------------------------------
+// controller moved BETWEEN operations (oracle only, own PRNG): one client + one admin live across two
+// controller-bound operations; between them the controller moves and the client learns it from an ordinary
+// metadata refresh (no NOT_CONTROLLER answer is involved). Every operation must go to the controller the
+// client's newest metadata names ("the then-current controller") and report its verdict.
+func movedControllerCase(cl *sarama.VerifCluster, name string, op, kv string, max int, a, b int32, firstOp bool) {
+	run.Case(name)
+	dialer := &trackDialer{}
+	conf := newConf(kv, max)
+	conf.Net.Proxy.Enable = true
+	conf.Net.Proxy.Dialer = dialer
+	defer dialer.closeAll()
+	ok := sarama.VerifReply{Items: map[int32]int16{}}
+	n := nparts(op)
+	if n == 0 {
+		n = 1
+	}
+	for p := 0; p < n; p++ {
+		ok.Items[int32(p)] = 0
+	}
+	cl.Arm(&sarama.VerifScript{Ctrls: []int32{a}, Replies: []sarama.VerifReply{ok, ok, ok, ok}})
+	client, err := sarama.NewClient(cl.Addrs(), conf)
+	if err != nil {
+		ioFail("harness-setup-failed", name, err.Error())
+		return
+	}
+	admin, err := sarama.NewClusterAdminFromClient(client)
+	if err != nil {
+		_ = client.Close()
+		ioFail("harness-setup-failed", name, err.Error())
+		return
+	}
+	type out struct {
+		e1, e2, re error
+		pan        string
+		log1, log2 []sarama.VerifReq
+	}
+	ch := make(chan out, 1)
+	go func() {
+		var o out
+		defer func() {
+			if p := recover(); p != nil {
+				o.pan = fmt.Sprint(p)
+			}
+			ch <- o
+		}()
+		if firstOp {
+			o.e1 = callCtrl(admin, op)
+			o.log1 = cl.Log()
+		}
+		// the controller moves; the client learns it from a plain metadata refresh
+		cl.Arm(&sarama.VerifScript{Ctrls: []int32{b}, Replies: []sarama.VerifReply{ok, ok, ok, ok}})
+		o.re = client.RefreshMetadata()
+		o.e2 = callCtrl(admin, op)
+		o.log2 = cl.Log()
+	}()
+	select {
+	case o := <-ch:
+		_ = admin.Close()
+		if o.pan != "" {
+			ioFail("panic", name, o.pan)
+			return
+		}
+		if o.re != nil {
+			ioFail("harness-setup-failed", name, "metadata refresh: "+o.re.Error())
+			return
+		}
+		detail := fmt.Sprintf("first=%v log1=%s second=%v log2=%s", o.e1, brokersOf(o.log1), o.e2, brokersOf(o.log2))
+		if firstOp && (o.e1 != nil || len(o.log1) != 1 || o.log1[0].Broker != a) {
+			ioFail("ctrl-attempt-to-wrong-broker", name, "first operation: "+detail)
+			return
+		}
+		if len(o.log2) == 0 || o.log2[0].Broker != b {
+			ioFail("ctrl-attempt-to-wrong-broker", name, fmt.Sprintf("after the move the first attempt must go to controller %d; %s", b, detail))
+			return
+		}
+		if o.e2 != nil || len(o.log2) != 1 {
+			ioFail("ctrl-result-differs-from-controller-verdict", name, "the current controller acknowledged the first attempt; "+detail)
+		}
+		run.Count("moved:" + op)
+		run.Nontrivial(name)
+	case <-time.After(opTimeout):
+		ioFail("admin-call-timeout", name, "no return within "+opTimeout.String())
+	}
+}
+
+func brokersOf(reqs []sarama.VerifReq) string {
+	var s []string
+	for _, r := range reqs {
+		s = append(s, fmt.Sprintf("%s@%d", r.Kind, r.Broker))
+	}
+	return "[" + strings.Join(s, " ") + "]"
+}
+
+func movedControllerCases(seed uint64, thorough bool) {
+	r := hlib.NewRand(seed*0x9E37 + 0xC19C7)
+	cls := newClusters()
+	defer cls.Close()
+	n := 24
+	if thorough {
+		n = 400
+	}
+	ops := []string{"ct", "dt", "cp", "ar1", "ar2"}
+	for i := 0; i < n; i++ {
+		op := ops[r.Intn(len(ops))]
+		kv := kvs[r.Intn(len(kvs))]
+		if !ctrlSupported(op, kv) {
+			kv = "2.4.0.0"
+		}
+		max := 1 + r.Intn(3) // Retry.Max = 0 is a separate matter (retryOnError), not what this family is about
+		a := int32(1 + r.Intn(3))
+		b := int32(1 + r.Intn(3))
+		for b == a {
+			b = int32(1 + r.Intn(3))
+		}
+		cl := cls.one
+		zero := r.Intn(3) == 0
+		if zero {
+			cl, a, b = cls.zero, a-1, b-1
+		}
+		first := r.Intn(2) == 0
+		movedControllerCase(cl, fmt.Sprintf("moved %s %s max=%d %d->%d firstOp=%v zero=%v", op, kv, max, a, b, first, zero), op, kv, max, a, b, first)
+	}
+}
+
+// ---------------------------------------------------------------------------------------------------
 // retryOnError alone
 
 func doRetry(line string, t []string) string {
@@ -1738,6 +1863,10 @@ func main() {
 			}
 			lines = append(lines, zeroBased(l))
 		}
+	}
+
+	if run.ReplayLines() == nil {
+		movedControllerCases(uint64(run.Seed), run.Tier == "thorough")
 	}
 
 	// execute on a few clusters in parallel, emit in generation order
